@@ -105,6 +105,7 @@ def run(ctx):
     for i in range(5 if ctx.quick() else 40):
         lines, ids = pdbgen.multichain(rnd, nchains=rnd.randint(1, 2))
         inputs.append(("gen%d" % i, pdbgen.text(lines)))
+    inputs.append(("ss-bridge", pdbgen.text(pdbgen.ss_fragment())))
     lbad, obad, rbad = [], [], []
     freqs, freals, preqs, preals = [], [], [], []
     for name, text in inputs:
